@@ -65,14 +65,14 @@ pub fn child_exit_check() {
 pub mod proofs {
     use super::*;
 
-    /// quick tier: default stdio, cwd/uid optional
+    /// quick tier: default stdio; cwd/uid/gid/pgroup each present or absent
     #[kani::proof]
     #[kani::unwind(15)]
     pub fn c13_q_spawn_returns_only_in_the_caller() {
         spawn_contract(false);
     }
 
-    /// thorough tier: additionally gid/pgroup and every stdio mode for stdin/stdout
+    /// thorough tier: additionally every stdio mode for stdin/stdout
     #[kani::proof]
     #[kani::unwind(15)]
     pub fn c13_t_spawn_returns_only_in_the_caller() {
@@ -92,13 +92,13 @@ pub mod proofs {
         if kani::any() {
             c.uid(kani::any());
         }
+        if kani::any() {
+            c.gid(kani::any());
+        }
+        if kani::any() {
+            c.pgroup(kani::any());
+        }
         if full {
-            if kani::any() {
-                c.gid(kani::any());
-            }
-            if kani::any() {
-                c.pgroup(kani::any());
-            }
             if let Some(s) = any_stdio() {
                 c.stdin(s);
             }
@@ -145,6 +145,7 @@ pub mod proofs {
     pub static mut CFG_NARGS: u8 = 0;
     pub static mut CFG_NENV: u8 = 0;
     pub static mut CFG_ARG1: usize = 0;
+    pub static mut CFG_ARG2: usize = 0;
     pub static mut CFG_ENV1: usize = 0;
     pub static mut CFG_ENV2: usize = 0;
     pub static mut CHILD_EXITS_SEEN: u32 = 0;
@@ -168,6 +169,8 @@ pub mod proofs {
             assert!(*argv == bin().as_ptr(), "argv0_is_the_binary");
             if CFG_NARGS == 1 {
                 assert!(*argv.add(1) as usize == CFG_ARG1 && (*argv.add(2)).is_null(), "argv_has_the_configured_argument_then_null");
+            } else if CFG_NARGS == 2 {
+                assert!(*argv.add(1) as usize == CFG_ARG1 && *argv.add(2) as usize == CFG_ARG2 && (*argv.add(3)).is_null(), "argv_has_both_arguments_in_order_then_null");
             } else {
                 assert!((*argv.add(1)).is_null(), "argv_null_terminated");
             }
@@ -206,8 +209,13 @@ pub mod proofs {
         if let Some(u) = uid {
             c.uid(u);
         }
-        if nargs == 1 {
+        let a2 = unsafe { UnixStr::from_bytes_unchecked(b"-y\0") };
+        if nargs >= 1 {
             c.arg(a1);
+        }
+        if nargs == 2 {
+            // through the iterator front end, on a command that already has an argument
+            c.args([a2].into_iter());
         }
         let e1 = UnixString::try_from_bytes(b"A=1\0").unwrap();
         let e2 = UnixString::try_from_bytes(b"B=2\0").unwrap();
@@ -217,6 +225,7 @@ pub mod proofs {
             CFG_NARGS = nargs;
             CFG_NENV = nenv;
             CFG_ARG1 = a1.as_ptr() as usize;
+            CFG_ARG2 = a2.as_ptr() as usize;
             CFG_ENV1 = e1.as_ptr() as usize;
             CFG_ENV2 = e2.as_ptr() as usize;
         }
@@ -251,6 +260,6 @@ pub mod proofs {
     #[kani::proof]
     #[kani::unwind(15)]
     pub fn c13_child_exec_args_env_2() {
-        child_path(false, None, 0, 2);
+        child_path(false, None, 2, 2);
     }
 }
